@@ -3,7 +3,38 @@ so that the scheduler simulator / the wall-clock watchdog can kill it)."""
 import json
 import os
 import sys
+import threading
+import time
 import traceback
+
+SPIN_FRAMES = ("expand_workflow_async", "get_runnable_tasks", "update_status")
+
+
+def spin_detector(main_id, log, out, quiet=12.0, period=0.25):
+    """Conclusive live-lock evidence (not a timeout): for `quiet` seconds no scheduler command was issued and
+    EVERY sample of the main thread's stack was executing the submitter's workflow loop (never waiting in the
+    event loop's select) => write outcome "livelock" with the stack and exit."""
+    since, last_size = None, -1
+    while True:
+        time.sleep(period)
+        fr = sys._current_frames().get(main_id)
+        names = []
+        while fr is not None:
+            names.append(fr.f_code.co_name)
+            fr = fr.f_back
+        try:
+            size = os.path.getsize(log)
+        except OSError:
+            size = 0
+        spinning = "select" not in names and any(n in SPIN_FRAMES for n in names)
+        if not spinning or size != last_size:
+            since, last_size = None, size
+            continue
+        since = since or time.time()
+        if time.time() - since >= quiet:
+            with open(out, "w") as f:
+                json.dump({"outcome": "livelock", "stack": names[:12], "quiet_s": quiet}, f)
+            os._exit(3)
 
 
 def main():
@@ -15,6 +46,8 @@ def main():
     from pydra.engine.submitter import Submitter
     from vp import c28_tasks as T
     res = {"outcome": None}
+    threading.Thread(target=spin_detector, daemon=True,
+                     args=(threading.main_thread().ident, os.environ.get("VP_ARGV_LOG", ""), sys.argv[2])).start()
     try:
         with Submitter(worker=spec["worker"], cache_root=spec["cache_root"], **spec["worker_kw"]) as sub:
             r = sub(T.build(spec["wf"], spec["x"]))
